@@ -239,6 +239,18 @@ func cmdTrace(outPath, metaPath string, seed int64, nscen int) int {
 			case <-time.After(time.Second):
 				// not a behaviour of the model: every worker is cancelled, Run() must return.  The recording ends here.
 				w.Sink = func(wk *Worker, e service.VerifEvent) {}
+				// keep a short tail after the last StopRet (a prefix of a behaviour is a behaviour), then the verdict line
+				rec.mu.Lock()
+				lastStop := 0
+				for i, e := range rec.events {
+					if e["ev"] == "StopRet" {
+						lastStop = i
+					}
+				}
+				if len(rec.events) > lastStop+60 {
+					rec.events = rec.events[:lastStop+60]
+				}
+				rec.mu.Unlock()
 				rec.emit(Event{"ev": "RunStuck", "sv": svk(n)})
 				stuck = true
 			}
